@@ -8,21 +8,44 @@ N = int(sys.argv[3]) if len(sys.argv) > 3 else 300
 common.build_runner()
 cases = []
 MAPS = {"typescript": [{}, {}, {"Url": "string"}, {"Vec<u8>": "Uint8Array"}, {"OffsetDateTime": "Date", "Foo": "FooMapped"}, {"Option<String>": "Maybe", "HashMap<String,u8>": "Dict"}]}
+MULTI = "--multi" in sys.argv
+from gen import TYPE_WORDS
 for i in range(N):
-    g = Gen(rng, p_cfg=0.0, p_edge=0.0, p_decorators=0.15, p_doc=0.4)
-    f = g.file()
+    g = Gen(rng, p_cfg=0.0, p_edge=0.0, p_decorators=0.15, p_doc=0.4, multi_file=MULTI, crates=["alpha", "beta_x"])
     cfg = {"type_mappings": rng.choice(MAPS.get(lang, [{}])), "version_header": rng.random() < 0.2,
            "package": "com.example.pkg", "module_name": "mod", "prefix": rng.choice(["", "", "OP"])}
-    m, r, t = requests(lang, cfg, [{"crate": "", "file_name": "out", "path": "src/lib.rs", "file": f}], g)
-    cases.append((m, r, t))
-mans = [norm(a) for a in common.model([c[0] for c in cases])]
+    if not MULTI:
+        f = g.file()
+        m, r, t = requests(lang, cfg, [{"crate": "", "file_name": "out", "path": "src/lib.rs", "file": f}], g)
+        cases.append((m, r, t, names_of(f)))
+    else:
+        words = rng.sample(TYPE_WORDS, 8)
+        split = {"alpha": words[:4], "beta_x": words[4:]}
+        files, names = [], set()
+        for crate, mine in split.items():
+            others = [w for c, ws in split.items() if c != crate for w in ws]
+            ext = rng.sample(others, 2)
+            f = g.file(names=rng.sample(mine, rng.randint(1, 4)), extern_types=ext)
+            for e in ext:
+                if rng.random() < 0.7:
+                    oc = [c for c in split if c != crate][0]
+                    f["items"].insert(0, {"kind": "use", "tree": ("upath", oc, ("uname", e))})
+            files.append({"crate": crate, "file_name": crate + ".out", "path": crate + "/src/lib.rs", "file": f})
+            names |= names_of(f)
+        rng.shuffle(files)
+        m, r, t = requests(lang, cfg, files, g, multi_file=True)
+        cases.append((m, r, t, names))
+allnames = set().union(*[c[3] for c in cases]) if lang == "python" else None
+mans = [norm(a) for a in common.model([c[0] for c in cases], names=allnames)]
 rans = [norm(a) for a in common.runner([c[1] for c in cases])]
-diffs = [i for i, (a, b) in enumerate(zip(mans, rans)) if a != b]
+amb = sum(1 for a in mans if "ambiguous" in a)
+diffs = [i for i, (a, b) in enumerate(zip(mans, rans)) if "ambiguous" not in a and a != b]
+print("ambiguous (hash-order dependent, skipped):", amb)
 from collections import Counter
 print("cases", N, "diffs", len(diffs), Counter(list(a.keys())[0] for a in rans))
 for i in diffs[:3]:
     print("------", i)
-    print(cases[i][2][0])
+    print("\n// ---- next file ----\n".join(cases[i][2]))
     a, b = mans[i], rans[i]
     if "ok" in a and "ok" in b:
         for k in b["ok"]:
